@@ -31,9 +31,13 @@ def _transform_class_to_readable(problem: str):
     return problem
 
 
-_pattern_for_typepy_validation_1 = re.compile(r"^([\w.]+): Got ([^;]*); (.*)$", re.DOTALL)
-_pattern_for_typepy_validation_2 = re.compile(r"^([\w.]+):\s(.*); Got (.*)$", re.DOTALL)
-_pattern_for_typepy_validation_3 = re.compile(r"^([\w.]+):\s(.*)$", re.DOTALL)
+# the field group: word characters and dots, plus every non-ASCII character that is not white space
+# (identifiers may contain combining marks and vowel signs - e.g. Devanagari, Thai, Arabic with
+# diacritics - which \w does not match)
+_FIELD = r"(?:[\w.]|[^\x00-\x7f\s])+"
+_pattern_for_typepy_validation_1 = re.compile(r"^(" + _FIELD + r"): Got ([^;]*); (.*)$", re.DOTALL)
+_pattern_for_typepy_validation_2 = re.compile(r"^(" + _FIELD + r"):\s(.*); Got (.*)$", re.DOTALL)
+_pattern_for_typepy_validation_3 = re.compile(r"^(" + _FIELD + r"):\s(.*)$", re.DOTALL)
 
 
 def standard_readable_error_for_typedpy_exception(e: Exception, top_level=True):
